@@ -460,6 +460,10 @@ fn left_pad_and_prefix(text: &str, marker: char) -> String {
     for (n, line) in text.lines().skip(start).enumerate() {
         if line.is_empty() {
             result.push_str("\n");
+        } else if n == 0 && line.len() >= 3 && line.chars().all(|c| c == '-') {
+            // a rule right after the marker: "- ---" is itself a rule, "- ___" is an item
+            // that holds one
+            result.push_str(&format!("{} {}\n", marker, "_".repeat(line.len())));
         } else if n == 0 {
             result.push_str(&format!("{} {}\n", marker, line));
         } else {
